@@ -13,7 +13,8 @@ RULE = (
     'expire/cull and plain writes that cull lazily) with clock steps, cull_limit in {0,1,2,10}, frozen-clock batches '
     'of 101-350 items sharing one expire_time, and huge negative ttls (expire_time <= 0), judged against the reference '
     'model: liveness of every lookup, expire() count and leftovers, lazy culls remove only expired items and at most '
-    'cull_limit; non-trivial = an item was looked up on both sides of its expiry instant, or expire()/a lazy cull '
+    'cull_limit; under contention: expire()/evict(tag) over 101-230 expired or tagged items while a second client rewrites some of them '
+    'between the pages (built + generated schedules): rewritten keys alive with the new value, the rest gone, bystanders untouched; non-trivial = an item was looked up on both sides of its expiry instant, or expire()/a lazy cull '
     'met >= 1 expired item; distinct by SHA-1 of the canonical case'
 )
 ASSUMPTIONS = c03.ASSUMPTIONS[:2] + [
